@@ -1,6 +1,6 @@
 #!/usr/bin/env python3
 """C06 - inferred bounds / integrality of auxiliary variables never cut off a value (Bounds.tla)."""
-import json, math, os, random, sys, time
+import json, math, os, random, re, sys, time
 sys.path.insert(0, os.path.join(os.path.dirname(os.path.abspath(__file__)), "..", "tools"))
 from vlib import *
 import targets
@@ -58,7 +58,7 @@ def pair_stage(tier, exe, v, sd, d):
     g = tlc("GenBoundPairs", "GenBoundPairs.cfg", cwd=sd, workers=NPROC)
     tlc_must_pass(g, "GenBoundPairs")
     pairs = printed_json(g, "CASE")
-    if len(pairs) != 12096:
+    if len(pairs) != 16260:
         raise Broken("GenBoundPairs produced %d pairs" % len(pairs))
     pairs.sort(key=lambda c: json.dumps(c, sort_keys=True))
     if tier != "thorough":
@@ -66,7 +66,7 @@ def pair_stage(tier, exe, v, sd, d):
         # every (type pair, coefficient pair, right-hand-side pair) once with a seeded domain
         groups = {}
         for pc in pairs:
-            groups.setdefault((pc["c1"]["type"], pc["c2"]["type"], pc["c1"]["lin"][0], pc["c2"]["lin"][0], pc["c1"]["c2"], pc["c2"]["c2"]), []).append(pc)
+            groups.setdefault(json.dumps([[c_[k_] for k_ in ("type", "lin", "quad", "c0", "c2")] for c_ in (pc["c1"], pc["c2"])]), []).append(pc)
         pairs = [rnd.choice(groups[k]) for k in sorted(groups)] + rnd.sample(pairs, 1500)
     cf = os.path.join(d, "pairs-%s.txt" % tier)
     with open(cf, "w") as f:
@@ -85,10 +85,11 @@ def pair_stage(tier, exe, v, sd, d):
         if not r1 or not r2 or "rv" not in r1 or "rv" not in r2:
             continue
         stats["both_vars"] += 1
-        dom = pc["c1"]["doms"][0]
-        # the converter may narrow the argument's domain while answering: the box is the domain as generated,
+        doms = pc["c1"]["doms"]
+        # the converter may narrow an argument's domain while answering: the box is the domain as generated,
         # so such pairs are not judged
-        if any(str(r_[k_]) != fmtb(dom[b_]) for r_ in (r1, r2) for k_, b_ in (("a0lb", "lb"), ("a0ub", "ub"))):
+        if any(len(r_[k_]) != len(doms) or any(str(r_[k_][j_]) != fmtb(doms[j_][b_]) for j_ in range(len(doms)))
+               for r_ in (r1, r2) for k_, b_ in (("alb", "lb"), ("aub", "ub"))):
             stats["narrowed"] += 1
             continue
         same = r1["rv"] == r2["rv"]
@@ -105,10 +106,11 @@ def pair_stage(tier, exe, v, sd, d):
             continue
         pc = pairs[vd["id"]]
         c1, c2 = pc["c1"], pc["c2"]
-        desc = lambda c: "%s %s*x, rhs %s/2" % (c["type"], c["lin"][0], c["c2"])
-        v.violation("reused:%s:%s:%s:%s:%s:%s:%s" % (c1["type"], c1["lin"][0], c1["c2"], c2["type"], c2["lin"][0], c2["c2"], c1["names"][0]),
-                    "one converter, x in %s: asked for (%s) and then for (%s), it answered the second with the variable introduced for the first, but the two differ at (D=2-scaled) x in %s" %
-                    (c1["names"][0], desc(c1), desc(c2), json.dumps(vd["at"])[:120]), {"pair": pc, "at": vd["at"]})
+        desc = lambda c: "%s lin=%s quad=%s const=%s rhs=%s/2" % (c["type"], c["lin"], c["quad"], c["c0"], c["c2"])
+        tag = lambda c: re.sub(r"[^\w-]+", "_", "%s_%s_%s_%s_%s" % (c["type"], c["lin"], c["quad"], c["c0"], c["c2"])).strip("_")
+        v.violation("reused:%s:%s:%s" % (tag(c1), tag(c2), "-".join(c1["names"])),
+                    "one converter, arguments in %s: asked for (%s) and then for (%s), it answered the second with the variable introduced for the first, but the two differ at the (D=2-scaled) argument points %s" %
+                    ("-".join(c1["names"]), desc(c1), desc(c2), json.dumps(vd["at"])[:160]), {"pair": pc, "at": vd["at"]})
     stats["verdicts"] = tally
     return stats, sum(r.distinct for r in vres) + g.distinct
 
